@@ -84,3 +84,18 @@ package message
 //@   site[legacy_blocks_are_hashed] call:impl.AddBlock#0 : arg1 == asIface(res("call:NewBlock#0", 0))
 //@   site[payload_blocks_are_hashed] call:impl.AddBlock#1 : arg1 == res("call:NewWantlistBlock#0", 0) && res("call:NewWantlistBlock#0", 1) == nil
 //@   site[presence_needs_a_defined_cid] call:impl.AddBlockPresence : res("call:Defined#0", 0)
+
+// ---- C34: what the v1 wire form says about each block ----------------------------------------------
+// every payload entry pairs the block's bytes with the prefix (version, codec, hash function, digest
+// length) of that same block's CID: the receiver recomputes the CID from exactly these two
+//@ func (*impl).ToProtoV1
+//@   prop C34
+//@   arith int-assumed
+//@   requires m != nil
+//@   modifies all
+//@   site[bytes_of_this_block] store:Data : arg0 == res("invoke:Block.RawData#0", 0)
+//@   site[prefix_of_this_blocks_cid] store:Prefix : arg0 == res("call:Prefix.Bytes#0", 0)
+//@   site[prefix_taken_from_the_cid_of_the_block] call:Prefix.Bytes : arg0 == res("call:Cid.Prefix#0", 0)
+//@   site[cid_of_the_block_whose_bytes_are_sent] call:Cid.Prefix : arg0 == res("invoke:Block.Cid#0", 0) && called("invoke:Block.RawData#0")
+//@   site[full_flag_kept] store:Full : arg0 == m.full
+//@   site[pending_bytes_kept] store:PendingBytes : arg0 == res("call:impl.PendingBytes#0", 0)
